@@ -1,9 +1,9 @@
 #!/usr/bin/env python3
 """Mutation self-test of the translation tie (tools/py2lean.py).
 
-Works on a scratch git worktree of $REPO (default /repo) under /root/scratch/gen/wt and on a scratch
-copy of /verif/lean under /root/scratch/gen/lean, so neither /repo nor the committed Gen files are
-touched.  For every covered function: property-breaking edits (the tie must break: `generated:false`
+Works on a scratch git worktree of $REPO (default /repo) under $PY2LEAN_SCRATCH/wt (default
+/root/scratch/gen/wt) and on a scratch copy of /verif/lean under $PY2LEAN_SCRATCH/lean, so neither /repo
+nor the committed Gen files are touched.  For every covered function: property-breaking edits (the tie must break: `generated:false`
 or `tie_checks:false`) and harmless edits (the tie should still check).
 
     tools/py2lean_selftest.py [Name ...] [--keep]
